@@ -1,18 +1,386 @@
 /-
-Props/C19 — property theorems for C19 (swarm-wide actions).  Helper lemmas are in Proofs/C19.
+Props/C19 — property theorems for C19 (swarm-wide actions).  Helper lemmas are in Proofs/C19*.
+
 Every theorem is about Model/C19 (whose constants are regenerated from /repo, Gen/C19) and quantifies over ALL
-swarms `cfs`, argument dictionaries, action outcomes and ALL interleavings `sch` of the member threads
-(`exec p st sch = some c`: `c` is the configuration after the schedule `sch`; proofs are by induction on `sch`).
+swarms `cfs`, ALL argument dictionaries, ALL action outcomes / failing subsets (the action function `f`, the
+connection outcome `conn`, the initial link flags `st.mem`) and ALL interleavings of the member threads:
+`exec p st sch = some c` says that `c` is the configuration after the schedule `sch : List Nat` (thread 0 = caller,
+thread i+1 = the thread of the i-th member); the proofs are inductions on `sch` (`Sched.run_invariant`).
+`c.main = .finished r` says that the swarm-wide call has returned (`r = none`) or raised (`r = some x`).
 -/
-import CfVerif.Proofs.C19
+import CfVerif.Proofs.C19All
 namespace CfVerif.C19
 open CfVerif CfVerif.Sched
 
-/-- parallel_safe has returned or raised only when every member's action (thread) has finished. -/
+/-! ## Gen obligations: what the hand-written model assumes about the current source -/
+
+/-- parallel_safe: one thread per entry of `_cfs`, started inside the loop, with `[func, reporter] + own args` -/
+theorem gen_spawn_loop : Gen.C19.psSpawnIter = "self._cfs.items()" ∧ Gen.C19.psSpawnTarget = "(uri, scf)" ∧
+    Gen.C19.psSpawnBody = ["args = [func, reporter] + self._process_args_dict(scf, uri, args_dict)",
+      "thread = Thread(target=self._thread_function_wrapper, args=args)", "threads.append(thread)", "thread.start()"] ∧
+    Gen.C19.psBeforeSpawn = ["threads = []", "reporter = self.Reporter()"] := by decide
+/-- parallel_safe: every started thread is joined, unconditionally, before the reporter is inspected -/
+theorem gen_join_loop : Gen.C19.psJoinIter = "threads" ∧ Gen.C19.psJoinTarget = "thread" ∧
+    Gen.C19.psJoinBody = ["thread.join()"] ∧ Gen.C19.psBetween = [] := by decide
+/-- parallel_safe: raises the generic exception chained from `reporter.errors[errIndex]` iff an error was reported -/
+theorem gen_raise : Gen.C19.psRaiseCond = "reporter.is_error_reported()" ∧ Gen.C19.psRaiseClass = "Exception" ∧
+    Gen.C19.psRaiseCause = "first_error" ∧ Gen.C19.psCauseList = "reporter.errors" ∧
+    Gen.C19.psIfBody = ["first_error = reporter.errors[0]"] := by decide
+/-- the thread wrapper calls `func(*args[2:])` and reports any `Exception` -/
+theorem gen_wrapper : Gen.C19.wrapTry = ["func = args[0]", "reporter = args[1]", "func(*args[2:])"] ∧
+    Gen.C19.wrapHandlerType = "Exception" ∧
+    Gen.C19.wrapHandlerBody = ["if reporter:\n    reporter.report_error(e)"] := by decide
+/-- the Reporter is per call (instance attributes only) and reports by flag-then-append -/
+theorem gen_reporter : Gen.C19.reporterClassAttrs = [] ∧
+    Gen.C19.reporterInit = ["self.error_reported = False", "self._errors = []"] ∧
+    Gen.C19.reportBody = ["self.error_reported = True", "self._errors.append(e)"] ∧
+    Gen.C19.reporterIsErr = ["return self.error_reported"] ∧ Gen.C19.reporterErrors = ["return self._errors"] := by decide
+theorem gen_process_args : Gen.C19.procArgs = ["args = [scf]", "if args_dict:\n    args += args_dict[uri]", "return args"] := by decide
+theorem gen_sequential : Gen.C19.seqIter = "self._cfs.items()" ∧ Gen.C19.seqTarget = "(uri, cf)" ∧
+    Gen.C19.seqBody = ["args = self._process_args_dict(cf, uri, args_dict)", "func(*args)"] := by decide
+theorem gen_parallel : Gen.C19.parTry = ["self.parallel_safe(func, args_dict)"] ∧ Gen.C19.parHandlerType = "Exception" ∧
+    Gen.C19.parHandlerBody = ["pass"] := by decide
+theorem gen_open_links : Gen.C19.openGuard = "self._is_open" ∧ Gen.C19.openGuardBody = ["raise Exception('Already opened')"] ∧
+    Gen.C19.openTry = ["self.parallel_safe(lambda scf: scf.open_link())", "self._is_open = True"] ∧
+    Gen.C19.openHandler = "Exception as e" ∧ Gen.C19.openHandlerBody = ["self.close_links()", "raise e"] := by decide
+theorem gen_close_links : Gen.C19.closeIter = "self._cfs.items()" ∧ Gen.C19.closeTarget = "(uri, cf)" ∧
+    Gen.C19.closeBody = ["cf.close_link()"] ∧ Gen.C19.closeTail = ["self._is_open = False"] := by decide
+theorem gen_ctor : Gen.C19.ctorLoop = "for uri in uris: self._cfs[uri] = factory.construct(uri)" ∧
+    Gen.C19.ctorCfsInit = ["self._cfs = {}"] ∧ Gen.C19.initIsOpen = false := by decide
+/-- SyncCrazyflie: open refuses an open link, raises when the connection failed; close acts only on an open link -/
+theorem gen_sync_crazyflie : Gen.C19.scfOpenGuard = "self.is_link_open()" ∧
+    Gen.C19.scfOpenGuardBody = ["raise Exception('Link already open')"] ∧
+    Gen.C19.scfOpenFailCond = "not self._is_link_open" ∧ Gen.C19.scfOpenFailRaise = ["raise Exception(self._error_message)"] ∧
+    Gen.C19.scfCloseGuard = "self.is_link_open()" ∧ Gen.C19.scfIsOpen = ["return self._is_link_open"] ∧
+    Gen.C19.scfInitIsOpen = false := by decide
+/-- the constants the proofs depend on (see Proofs/C19: gen_errIndex ... gen_scfDisconnectedSets) -/
+theorem gen_constants : Gen.C19.errIndex = 0 ∧ Gen.C19.reporterInitFlag = false ∧ Gen.C19.reportFlagValue = true ∧
+    Gen.C19.openSetsFlag = true ∧ Gen.C19.closeSetsFlag = false ∧ Gen.C19.scfConnectedSets = true ∧
+    Gen.C19.scfFailedSets = false ∧ Gen.C19.scfDisconnectedSets = false := by decide
+
+/-! ## Vocabulary -/
+
+/-- `_cfs` is a dictionary: one entry per URI (guaranteed by `Swarm.__init__`, see `mkSwarm_nodup`) -/
+def KeysNodup (cfs : List (Uri × Member)) : Prop := (cfs.map Prod.fst).Nodup
+
+/-- the swarm-wide call with a user action `f` -/
+def userCall (cfs : List (Uri × Member)) (kind : Kind) (d : ArgsDict) (f : Uri → List Arg → Option Err) : Params :=
+  ⟨cfs, kind, d, .user f⟩
+
+/-- open_links: `parallel_safe(lambda scf: scf.open_link())`; member u connects iff `conn u` -/
+def openCall (cfs : List (Uri × Member)) (conn : Uri → Bool) : Params := ⟨cfs, .openLinks, none, .openLink conn⟩
+
+/-- "its own entry of the argument dictionary": no extra arguments without a dictionary, else the entry for that URI -/
+theorem own_entry (p : Params) (u : Uri) :
+    (p.args = none → argsOf p u = []) ∧
+    (∀ kvs a, p.args = some kvs → kvs ≠ [] → kvs.lookup u = some a → argsOf p u = a) := by
+  constructor
+  · intro h; simp [argsOf, processArgs, h]
+  · intro kvs a h hne hl
+    cases kvs with
+    | nil => exact absurd rfl hne
+    | cons kv rest => simp [argsOf, processArgs, h, hl]
+
+theorem argsOk_open (cfs : List (Uri × Member)) (conn : Uri → Bool) : ArgsOk (openCall cfs conn) := by
+  intro u m _; exact ⟨[], rfl⟩
+
+/-! ## The property -/
+
+/-- **Exactly once per Crazyflie, with its own connection and its own arguments.**  When the call has finished, the
+action events of each member `(u, m)` in the trace are exactly: one call `func(m, *args_dict[u])` followed by its
+return or its raise - under every interleaving; and nothing else was called. -/
+theorem each_once_with_own_args (p : Params) (hnd : KeysNodup p.cfs) (hargs : ArgsOk p) (st : SwarmState)
+    (sch : List Nat) (c : Cfg) (r : Option Exc) (h : exec p st sch = some c) (hf : c.main = .finished r) :
+    (∀ (i : Nat) (u : Uri) (m : Member), p.cfs[i]? = some (u, m) →
+      actEvents u c.trace = [.call u m (argsOf p u), .ret u] ∨
+      ∃ e, actEvents u c.trace = [.call u m (argsOf p u), .raised u e]) ∧
+    (∀ ev, ev ∈ c.trace → ∃ (i : Nat) (m : Member), p.cfs[i]? = some (ev.uri, m)) := by
+  refine ⟨?_, trace_uris_exec h⟩
+  intro i u m hi
+  have L := loc_exec hnd h i u m hi
+  have I := allInv_exec hargs h
+  obtain ⟨ri, hri⟩ := allDone_of_past hargs I.shape (by rw [hf]; trivial) i (lt_of_getElem?_eq_some hi)
+  rw [hri] at L
+  cases ri with
+  | none => exact .inl L
+  | some e => exact .inr ⟨e, L⟩
+
+/-- **Sequential actions run one at a time in the iteration order of the URIs.**  The trace of `sequential` is the
+concatenation, in `_cfs` order, of complete `[call, ret]` blocks for the first `j` members (each with its own
+connection and arguments); either `j` is the whole swarm and nothing is raised, or member `j`'s action raised `e`:
+its `[call, raised]` block ends the trace and `e` itself propagates. -/
+theorem sequential_in_order (cfs : List (Uri × Member)) (d : ArgsDict) (f : Uri → List Arg → Option Err)
+    (hargs : ∀ kv, kv ∈ cfs → ∃ a, processArgs d kv.1 = .ok a) :
+    ∃ j, j ≤ cfs.length ∧ (∀ i kv, i < j → cfs[i]? = some kv → f kv.1 (argsOfD d kv.1) = none) ∧
+      ((j = cfs.length ∧ sequential cfs d f = (((cfs.take j).map (okBlock d)).flatten, none)) ∨
+       (∃ u m e, cfs[j]? = some (u, m) ∧ f u (argsOfD d u) = some e ∧
+          sequential cfs d f = (((cfs.take j).map (okBlock d)).flatten ++ [.call u m (argsOfD d u), .raised u e], some (.user e)))) := by
+  have := sequentialGo_spec d f cfs [] hargs
+  simpa [sequential] using this
+
+/-- **parallel_safe returns only after every action has finished**: whenever the call has returned or raised, every
+member thread is done (its action returned or raised and its error, if any, is in the reporter). -/
 theorem parallel_safe_returns_after_all (p : Params) (hargs : ArgsOk p) (st : SwarmState) (sch : List Nat) (c : Cfg)
-    (r : Option Exc) (h : exec p st sch = some c) (hf : c.main = .finished r) : AllDone p c := by
-  rcases (shape_exec h).after (by rw [hf]; trivial) with hall | hno
-  · exact hall
-  · exact absurd hargs hno
+    (r : Option Exc) (h : exec p st sch = some c) (hf : c.main = .finished r) : AllDone p c :=
+  allDone_of_past hargs (shape_exec h) (by rw [hf]; trivial)
+
+/-- **parallel_safe raises iff at least one action raised, chaining one of the raised errors.**  For every action
+function `f` (= every failing subset): it returns normally iff `f` fails for no member on its own arguments, and what it
+raises is the generic exception whose cause `e` is the error that some member's action raised in this very call. -/
+theorem raises_iff_some_failed (cfs : List (Uri × Member)) (d : ArgsDict) (f : Uri → List Arg → Option Err)
+    (hargs : ArgsOk (userCall cfs .parallelSafe d f)) (st : SwarmState) (sch : List Nat) (c : Cfg) (r : Option Exc)
+    (h : exec (userCall cfs .parallelSafe d f) st sch = some c) (hf : c.main = .finished r) :
+    (r = none ↔ ∀ u m, (u, m) ∈ cfs → f u (argsOfD d u) = none) ∧
+    (∀ x, r = some x → ∃ e u m, x = .chained e ∧ (u, m) ∈ cfs ∧ f u (argsOfD d u) = some e) := by
+  have I := allInv_exec hargs h
+  have hall := allDone_of_past hargs I.shape (by rw [hf]; trivial)
+  have hcor : Correct c r := I.res.finished r hf (by simp [userCall])
+  have hout : ∀ i u m ri, cfs[i]? = some (u, m) → c.thr i = .done ri → f u (argsOfD d u) = ri := by
+    intro i u m ri hi hd
+    have := I.out.res i u m ri hi (by rw [hd]; rfl)
+    simpa [userCall, Action.finish, argsOf_eq_argsOfD] using this
+  have hlt : ∀ i e, c.thr i = .done (some e) → i < cfs.length := by
+    intro i e hd
+    rcases Nat.lt_or_ge i cfs.length with hlt | hge
+    · exact hlt
+    · have := I.shape.beyond i hge; rw [this] at hd; cases hd
+  constructor
+  · constructor
+    · intro hr u m hmem
+      subst hr
+      obtain ⟨i, hi⟩ := List.getElem?_of_mem hmem
+      obtain ⟨ri, hri⟩ := hall i (lt_of_getElem?_eq_some hi)
+      cases ri with
+      | none => exact hout i u m none hi hri
+      | some e => exact absurd hri (hcor i e)
+    · intro hnone
+      cases r with
+      | none => rfl
+      | some x =>
+        obtain ⟨e, i, _, hd⟩ := hcor
+        have hi := hlt i e hd
+        have hget : cfs[i]? = some cfs[i] := List.getElem?_eq_getElem hi
+        have := hout i cfs[i].1 cfs[i].2 (some e) hget hd
+        rw [hnone cfs[i].1 cfs[i].2 (List.getElem_mem hi)] at this
+        cases this
+  · intro x hx
+    subst hx
+    obtain ⟨e, i, hxe, hd⟩ := hcor
+    have hi := hlt i e hd
+    have hget : cfs[i]? = some cfs[i] := List.getElem?_eq_getElem hi
+    exact ⟨e, cfs[i].1, cfs[i].2, hxe, List.getElem_mem hi, hout i cfs[i].1 cfs[i].2 (some e) hget hd⟩
+
+/-- the chained cause was raised by one of this call's actions: its `raised` event is in the trace -/
+theorem cause_in_trace (p : Params) (hk : p.kind ≠ .parallel) (hnd : KeysNodup p.cfs) (hargs : ArgsOk p) (st : SwarmState)
+    (sch : List Nat) (c : Cfg) (x : Exc) (h : exec p st sch = some c) (hf : c.main = .finished (some x)) :
+    ∃ e u, x = .chained e ∧ Ev.raised u e ∈ c.trace := by
+  have I := allInv_exec hargs h
+  obtain ⟨e, i, hxe, hd⟩ := I.res.finished (some x) hf hk
+  have hi : i < p.cfs.length := by
+    rcases Nat.lt_or_ge i p.cfs.length with hlt | hge
+    · exact hlt
+    · have := I.shape.beyond i hge; rw [this] at hd; cases hd
+  have hget : p.cfs[i]? = some (p.cfs[i].1, p.cfs[i].2) := List.getElem?_eq_getElem hi
+  have L := loc_exec hnd h i _ _ hget
+  rw [hd] at L
+  refine ⟨e, p.cfs[i].1, hxe, ?_⟩
+  have : Ev.raised p.cfs[i].1 e ∈ actEvents p.cfs[i].1 c.trace := by rw [L]; simp [localTrace]
+  exact (List.mem_filter.mp this).1
+
+/-- **parallel never raises** - for every argument dictionary (even one that lacks members), every action function and
+every interleaving. -/
+theorem parallel_never_raises (cfs : List (Uri × Member)) (d : ArgsDict) (f : Uri → List Arg → Option Err)
+    (st : SwarmState) (sch : List Nat) (c : Cfg) (r : Option Exc)
+    (h : exec (userCall cfs .parallel d f) st sch = some c) (hf : c.main = .finished r) : r = none :=
+  par_exec (p := userCall cfs .parallel d f) rfl h r hf
+
+/-- what `SyncCrazyflie.open_link` of member `i` (URI `u`) does: it fails iff the link is already open or the
+connection attempt fails -/
+def openFails (st : SwarmState) (conn : Uri → Bool) (i : Nat) (u : Uri) : Prop := st.mem i = true ∨ conn u = false
+
+theorem open_finish_fst (conn : Uri → Bool) (u : Uri) (a : List Arg) (b : Bool) :
+    ((Action.openLink conn).finish u a b).1 = none ↔ (b = false ∧ conn u = true) := by
+  simp only [Action.finish]
+  cases b <;> cases conn u <;> simp
+
+/-- **If opening any link fails, every link is closed again and the failure is raised** - and otherwise every link is
+open and the swarm is marked open.  For every connection outcome `conn`, all initial link states and all interleavings. -/
+theorem open_failure_closes_all_and_raises (cfs : List (Uri × Member)) (conn : Uri → Bool) (st : SwarmState)
+    (sch : List Nat) (c : Cfg) (r : Option Exc) (h : exec (openCall cfs conn) st sch = some c) (hf : c.main = .finished r) :
+    ((∃ i u m, cfs[i]? = some (u, m) ∧ openFails st conn i u) →
+        (∃ e i u m, r = some (.chained e) ∧ cfs[i]? = some (u, m) ∧ openFails st conn i u ∧
+            e = (if st.mem i then Err.linkAlreadyOpen u else Err.connFailed u)) ∧
+        (∀ i, i < cfs.length → c.mem i = false) ∧ c.swarmOpen = false) ∧
+    ((∀ i u m, cfs[i]? = some (u, m) → ¬ openFails st conn i u) →
+        r = none ∧ (∀ i, i < cfs.length → c.mem i = true) ∧ c.swarmOpen = true) := by
+  have hargs := argsOk_open cfs conn
+  have I := allInv_exec hargs h
+  have hall := allDone_of_past hargs I.shape (by rw [hf]; trivial)
+  have hcor : Correct c r := I.res.finished r hf (by simp [openCall])
+  have hout : ∀ i u m ri, cfs[i]? = some (u, m) → c.thr i = .done ri →
+      ((Action.openLink conn).finish u (argsOf (openCall cfs conn) u) (st.mem i)).1 = ri := by
+    intro i u m ri hi hd
+    exact I.out.res i u m ri hi (by rw [hd]; rfl)
+  have hlt : ∀ i e, c.thr i = .done (some e) → i < cfs.length := by
+    intro i e hd
+    rcases Nat.lt_or_ge i cfs.length with hlt | hge
+    · exact hlt
+    · have := I.shape.beyond i hge; rw [this] at hd; cases hd
+  constructor
+  · rintro ⟨i, u, m, hi, hfail⟩
+    -- member i's open_link raised, so the result cannot be `none`
+    obtain ⟨ri, hri⟩ := hall i (lt_of_getElem?_eq_some hi)
+    have hne : ri ≠ none := by
+      intro hn; subst hn
+      have := (open_finish_fst conn u _ (st.mem i)).mp (hout i u m none hi hri)
+      rcases hfail with hf1 | hf1 <;> simp_all
+    cases r with
+    | none =>
+      cases ri with
+      | none => exact absurd rfl hne
+      | some e => exact absurd hri (hcor i e)
+    | some x =>
+      obtain ⟨e, j, hxe, hd⟩ := hcor
+      have hj := hlt j e hd
+      have hget : cfs[j]? = some (cfs[j].1, cfs[j].2) := List.getElem?_eq_getElem hj
+      have hfin := hout j _ _ (some e) hget hd
+      have hcl := I.cl.closed x hf rfl
+      refine ⟨⟨e, j, cfs[j].1, cfs[j].2, by rw [hxe], hget, ?_, ?_⟩, hcl.1, hcl.2⟩
+      · simp only [Action.finish] at hfin
+        unfold openFails
+        cases hm : st.mem j
+        · rw [hm] at hfin
+          cases hc : conn cfs[j].1
+          · exact .inr rfl
+          · rw [hc] at hfin; simp at hfin
+        · exact .inl rfl
+      · simp only [Action.finish] at hfin
+        cases hm : st.mem j <;> rw [hm] at hfin
+        · cases hc : conn cfs[j].1 <;> rw [hc] at hfin <;> simp_all
+        · simp_all
+  · intro hnofail
+    have hnone : ∀ i u m, cfs[i]? = some (u, m) → c.thr i = .done none := by
+      intro i u m hi
+      obtain ⟨ri, hri⟩ := hall i (lt_of_getElem?_eq_some hi)
+      have hfin := hout i u m ri hi hri
+      have hnf := hnofail i u m hi
+      have : ((Action.openLink conn).finish u (argsOf (openCall cfs conn) u) (st.mem i)).1 = none := by
+        rw [open_finish_fst]
+        unfold openFails at hnf
+        constructor
+        · cases hm : st.mem i
+          · rfl
+          · exact absurd (.inl hm) hnf
+        · cases hc : conn u
+          · exact absurd (.inr hc) hnf
+          · rfl
+      rw [this] at hfin; rw [hri, ← hfin]
+    have hr : r = none := by
+      cases r with
+      | none => rfl
+      | some x =>
+        obtain ⟨e, j, _, hd⟩ := hcor
+        have hj := hlt j e hd
+        have := hnone j cfs[j].1 cfs[j].2 (List.getElem?_eq_getElem hj)
+        rw [this] at hd; cases hd
+    subst hr
+    refine ⟨rfl, ?_, I.cl.opened hf rfl⟩
+    intro i hi
+    have hget : cfs[i]? = some (cfs[i].1, cfs[i].2) := List.getElem?_eq_getElem hi
+    have hd := hnone i _ _ hget
+    have hpost := I.out.post (by rw [hf]; trivial) i _ _ none hget (by rw [hd]; rfl)
+    rw [hpost]
+    have hnf := hnofail i _ _ hget
+    unfold openFails at hnf
+    simp only [openCall, Action.finish]
+    cases hm : st.mem i
+    · cases hc : conn cfs[i].1
+      · exact absurd (.inr hc) hnf
+      · simp [gen_scfConnectedSets]
+    · exact absurd (.inl hm) hnf
+
+/-- **A swarm cannot be opened twice**: while `_is_open` is set, `open_links` raises 'Already opened' without starting
+a thread, calling a member or changing any state (under every schedule) ... -/
+theorem no_double_open (cfs : List (Uri × Member)) (st : SwarmState) (conn : Uri → Bool) (sch : List Nat)
+    (hopen : st.isOpen = true) : runOp cfs st (.openLinks conn) sch = some (st, [], some .alreadyOpened) := by
+  simp [runOp, hopen]
+
+/-- ... and every successful `open_links` sets `_is_open`; so a second `open_links` after a successful one raises. -/
+theorem open_twice_raises (cfs : List (Uri × Member)) (st st' : SwarmState) (conn conn' : Uri → Bool) (sch sch' : List Nat)
+    (tr : List Ev) (h : runOp cfs st (.openLinks conn) sch = some (st', tr, none)) :
+    runOp cfs st' (.openLinks conn') sch' = some (st', [], some .alreadyOpened) := by
+  apply no_double_open
+  unfold runOp at h
+  simp only at h
+  split at h
+  · cases h
+  · next hno =>
+    split at h
+    · next c hc =>
+      split at h
+      · next r hm =>
+        simp only [Option.some.injEq, Prod.mk.injEq] at h
+        obtain ⟨hst, _, hr⟩ := h
+        subst hr
+        have I := allInv_exec (argsOk_open cfs conn) hc
+        have := I.cl.opened hm rfl
+        rw [← hst]; exact this
+      · cases h
+    · cases h
+
+/-- **The join and the error collection are race-free: no interleaving deadlocks** - as long as the call has not
+finished some thread can step ... -/
+theorem no_deadlock (p : Params) (st : SwarmState) (sch : List Nat) (c : Cfg) (h : exec p st sch = some c)
+    (hf : ∀ r, c.main ≠ .finished r) : ∃ t c', (machine p).step c t = some c' :=
+  no_deadlock_aux h hf
+
+/-- ... and no interleaving is longer than `8 * members + 7` steps: the call always finishes (given that the actions do). -/
+theorem schedule_bounded (p : Params) (st : SwarmState) (sch : List Nat) (c : Cfg) (h : exec p st sch = some c) :
+    sch.length ≤ 8 * p.cfs.length + 7 := by
+  have := run_length_le (machine p) (measure p) (measure_decreases p) sch (init st) c h
+  rw [measure_init] at this
+  omega
+
+/-- `reporter.errors[0]` never fails: the IndexError exit of the model is unreachable. -/
+theorem never_index_error (p : Params) (hargs : ArgsOk p) (st : SwarmState) (sch : List Nat) (c : Cfg)
+    (h : exec p st sch = some c) : c.main ≠ .psDone (some .indexError) := by
+  intro hm
+  obtain ⟨e, i, hx, _⟩ := (allInv_exec hargs h).res.psDone _ hm
+  cases hx
+
+/-- `Swarm.__init__` builds a dictionary: one entry per distinct URI ... -/
+theorem mkSwarm_nodup (uris : List Uri) : KeysNodup (mkSwarm uris) := mkSwarm_nodup_aux uris
+/-- ... and for distinct URIs the iteration order is the given order, member `k` being the k-th constructed object. -/
+theorem mkSwarm_of_nodup (uris : List Uri) (h : uris.Nodup) : mkSwarm uris = uris.zipIdx := mkSwarm_of_nodup_aux uris h
+
+/-! ## Non-vacuity: concrete instances -/
+
+/-- two members, member 7 fails with error 4; arguments from the dictionary -/
+def exF : Uri → List Arg → Option Err := fun u _ => if u = 7 then some (.user 4) else none
+def exD : ArgsDict := some [(5, [1, 2]), (7, [])]
+def exSt : SwarmState := ⟨false, fun _ => false⟩
+
+example : ArgsOk (userCall (mkSwarm [5, 7]) .parallelSafe exD exF) := by
+  intro u m hm
+  have : (u, m) = (5, 0) ∨ (u, m) = (7, 1) := by simpa [userCall, mkSwarm, mkSwarmGo, dictSet] using hm
+  rcases this with h | h <;> (cases h; exact ⟨_, rfl⟩)
+example : KeysNodup (mkSwarm [5, 7, 5]) := by unfold KeysNodup; decide
+example : mkSwarm [5, 7, 5] = [(5, 2), (7, 1)] := by decide
+/-- an interleaving in which the failing member is overtaken: the call raises, chained from error 4, after both finished -/
+example : ((exec (userCall (mkSwarm [5, 7]) .parallelSafe exD exF) exSt [0, 0, 0, 2, 1, 2, 1, 2, 0, 2, 0, 0, 0, 0]).map
+    fun c => (c.main, c.trace)) =
+    some (.finished (some (.chained (.user 4))), [.call 7 1 [], .call 5 0 [1, 2], .raised 7 (.user 4), .ret 5]) := by decide
+/-- main cannot pass the join of a running thread: that schedule is not an execution -/
+example : exec (userCall (mkSwarm [5, 7]) .parallelSafe exD exF) exSt [0, 0, 0, 0] = none := by decide
+example : (sequential (mkSwarm [5, 7]) exD exF) =
+    ([.call 5 0 [1, 2], .ret 5, .call 7 1 [], .raised 7 (.user 4)], some (.user (.user 4))) := by decide
+/-- open_links with member 7 failing to connect: both closed again, not open, chained from the connection failure -/
+example : ((runOp (mkSwarm [5, 7]) exSt (.openLinks fun u => u != 7) [0, 0, 0, 1, 2, 1, 2, 2, 2, 0, 0, 0, 0, 0, 0, 0, 0]).map
+    fun r => (r.1.isOpen, r.1.mem 0, r.1.mem 1, r.2.2)) = some (false, false, false, some (.chained (.connFailed 7))) := by decide
+example : openFails exSt (fun u => u != 7) 1 7 := .inr (by decide)
+/-- outside the property (malformed dictionary): with a missing entry parallel_safe raises KeyError while the thread it
+already started is still running - `ArgsOk` is a real hypothesis of `parallel_safe_returns_after_all` -/
+example : ((exec (userCall (mkSwarm [5, 7]) .parallelSafe (some [(5, [1])]) exF) exSt [0, 0, 0]).map
+    fun c => (c.main, c.thr 0)) = some (.finished (some (.keyError 7)), .ready [1]) := by decide
 
 end CfVerif.C19
